@@ -28,7 +28,7 @@ CFG = {
         "uint is 64 bit (Go on amd64/arm64) in the Dynamic list model",
         "the interpreter of the regenerated bodies (Model/DynExec.lean: parser of the flat statement lines, uint typing rule, what it keeps of surfaces - index, row, height; columns, cells and the child of the cursor surface are not represented) is the semantics of the Go subset the theorems draw_body_eq_model / insert_children_body_eq_model / handle_event_body_eq_model / capture_event_body_eq_model speak about; it is validated against the real code by the correspondence run (every dl op is run through it)",
         "the *_body_eq_model theorems go through C19Tie.skeleton_* (regenerated body = the expected copy in Lemmas/DynSkelExpected.lean) and Lemmas/DynTrees.parse_* (kernel-evaluated parser): a change of list.go makes skeleton_* fail rather than re-proving the equality for the new body",
-        "the interpreter of the widgets' regenerated bodies (Model/WidExec.lean: int fields and locals, built-in min/max - justified by minmax_body_eq_model -, Go's truncating division, characters/cells as bytes+width, a style as its attribute, the pager's line pointers with exact aliasing for the single pointer local (the positions of m.lines holding the same object are tracked and updated by l.append) instead of a general heap, the window with clipped SetCell/Println, range loops over snapshots of the collection, the call of Layout with fresh locals) is the semantics of the Go subset the theorems of Props/C19Wid.lean speak about; validated against the real code by the correspondence run (every sl/pg/sb op is run through it); all eighteen functions are executed (l.append(cell) is a call into the interpreted body of line.append)",
+        "the interpreter of the widgets' regenerated bodies (Model/WidExec.lean: int fields and locals, calls of list.go's own min/max into their interpreted bodies (minmax_body_eq_model), Go's truncating division, characters/cells as bytes+width, a style as its attribute, the pager's line pointers with exact aliasing for the single pointer local (the positions of m.lines holding the same object are tracked and updated by l.append) instead of a general heap, the window with clipped SetCell/Println, range loops over snapshots of the collection, the call of Layout with fresh locals) is the semantics of the Go subset the theorems of Props/C19Wid.lean speak about; validated against the real code by the correspondence run (every sl/pg/sb op is run through it); all eighteen functions are executed (l.append(cell) is a call into the interpreted body of line.append)",
         "the *_body_eq_model theorems of Props/C19Wid.lean go through wid_bodies_as_expected (regenerated body = the copy in Lemmas/WidSkelExpected.lean) and Lemmas/WidTrees.parse_*: a change of list.go / pager.go / scrollbar.go makes wid_bodies_as_expected fail rather than re-proving the equality for the new body",
         "Props/C19.lean imports Spec/Surface.lean and Model/Window.lean (C14's spec of the painter's algorithm) for dyn_selected_on_top",
         "vxfw.NewSurface / AddChild / WriteCell (C14) are not re-modelled: the surface-size statement is syntactic (facts_surface_is_max) plus the harness reading s.Size",
